@@ -44,11 +44,11 @@ def project(st):
     return sx, sy
 
 
-def record_run(kind, cap, targets, p, n, seed, pass_y_keyword=False):
+def record_run(kind, cap, targets, p, n, seed, pass_y_keyword=False, extreme=False):
     """Seeded run of the real class; one event per update."""
     random.seed(seed)
     np.random.seed(seed % 2 ** 32)
-    tape = Tape(mode="log")
+    tape = Tape(mode="extreme", rng=random.Random(seed + 1)) if extreme else Tape(mode="log")
     tape.__enter__()
     st = make(kind, cap, targets, p)
     # a second live object of the same class (other capacity), fed other items in lockstep: objects must not share state
